@@ -35,15 +35,34 @@ package identity
 // dUnHas(vs)[h][a] / dUnAmt(vs)[h][a]: an unstake of dUnAmt is recorded at height h for validator address bytes a
 //@ model dUnHas(*ValidatorStore) array[int]array[string]bool
 //@ model dUnAmt(*ValidatorStore) array[int]array[string]int
-//@ assume func (*ValidatorStore).SetDelayUnstake
-//@   modifies dUnHas(vs)[vs.lastHeight], dUnAmt(vs)[vs.lastHeight], vHas(vs.store), vVal(vs.store)
-//@   ensures err == nil ==> dUnHas(vs)[vs.lastHeight] == old(dUnHas(vs))[vs.lastHeight][str(unstake.Address) := true] && dUnAmt(vs)[vs.lastHeight] == old(dUnAmt(vs))[vs.lastHeight][str(unstake.Address) := unstake.Amount]
-//@   ensures err != nil ==> dUnHas(vs)[vs.lastHeight] == old(dUnHas(vs))[vs.lastHeight] && dUnAmt(vs)[vs.lastHeight] == old(dUnAmt(vs))[vs.lastHeight]
-
-//@ assume func (*ValidatorStore).GetDelayUnstake
+// The postponed-unstake record: written at the CURRENT height (SetDelayUnstake, by the verdict) and read back at the PREVIOUS
+// height one block later (GetDelayUnstake, by the election): the key is prefixPurge ++ "unstake_<height>" ++ address.
+// VERIFIED (`claims` on the accessors, `ensures` on the key builder; fmt.Sprintf modelled: T-FMT): exact key text, a
+// successful write leaves exactly the serialised record there and nothing else, a failed one writes nothing, the read
+// decodes what is visible under the key of height - 1. TRUSTED per clause: the typed ledgers dUnHas / dUnAmt.
+//@ ghost func dUnKey(vs *ValidatorStore, h int, a bytes) string = (str(vs.prefixPurge) + ("unstake_" + @int_str(h))) + str(a)
+//@ func (*ValidatorStore).getDelayUnstakeKey
+//@   requires vs != nil
 //@   modifies nothing
-//@   ensures err == nil ==> result0 != nil && fresh(result0) && dUnHas(vs)[vs.lastHeight - 1][str(addr)] && result0.Amount == dUnAmt(vs)[vs.lastHeight - 1][str(addr)] && str(result0.Address) == str(addr)
-//@   ensures err != nil ==> result0 == nil
+//@   ensures str(result) == dUnKey(vs, height, address)                                           // C19.delayed-unstake-record
+//@ func (*ValidatorStore).SetDelayUnstake
+//@   assumes vs != nil && vs.store != nil && wfState(vs.store)
+//@   modifies dUnHas(vs)[vs.lastHeight], dUnAmt(vs)[vs.lastHeight], vHas(vs.store), vVal(vs.store)
+//@   trustframe
+//@   trusts err == nil ==> dUnHas(vs)[vs.lastHeight] == old(dUnHas(vs))[vs.lastHeight][str(unstake.Address) := true] && dUnAmt(vs)[vs.lastHeight] == old(dUnAmt(vs))[vs.lastHeight][str(unstake.Address) := unstake.Amount]
+//@   trusts err != nil ==> dUnHas(vs)[vs.lastHeight] == old(dUnHas(vs))[vs.lastHeight] && dUnAmt(vs)[vs.lastHeight] == old(dUnAmt(vs))[vs.lastHeight]
+//@   assumes unstake != nil && !tomb(ser(*unstake, "Unstake"))                                     // A-NOTOMB a serialised record is never the deletion marker
+//@   claims err == nil ==> vHas(vs.store)[dUnKey(vs, vs.lastHeight, unstake.Address)] && vVal(vs.store)[dUnKey(vs, vs.lastHeight, unstake.Address)] == ser(old(*unstake), "Unstake")   // C19.delayed-unstake-record
+//@   claims err == nil ==> forall k string :: k != dUnKey(vs, vs.lastHeight, unstake.Address) ==> vHas(vs.store)[k] == old(vHas(vs.store))[k] && vVal(vs.store)[k] == old(vVal(vs.store))[k]   // C19.delayed-unstake-record
+//@   claims err != nil ==> vHas(vs.store) == old(vHas(vs.store)) && vVal(vs.store) == old(vVal(vs.store))   // C19.delayed-unstake-record
+
+//@ func (*ValidatorStore).GetDelayUnstake
+//@   assumes vs != nil && vs.store != nil && wfState(vs.store)
+//@   modifies nothing
+//@   trustframe
+//@   trusts err == nil ==> result0 != nil && fresh(result0) && dUnHas(vs)[vs.lastHeight - 1][str(addr)] && result0.Amount == dUnAmt(vs)[vs.lastHeight - 1][str(addr)] && str(result0.Address) == str(addr)
+//@   trusts err != nil ==> result0 == nil
+//@   claims err == nil && !old(exhausted(vs.store.cache)) && vHas(vs.store)[dUnKey(vs, wrap64(vs.lastHeight - 1), addr)] ==> *result0 == deser(vVal(vs.store)[dUnKey(vs, wrap64(vs.lastHeight - 1), addr)], "Unstake")   // C19.delayed-unstake-record
 
 // ---------------------------------------------------------------- block-end tally
 
